@@ -314,7 +314,7 @@ func directiveEvents(b *Build, evs []map[string]any, src string) (recs []any, co
 			for _, n := range names {
 				tg = append(tg, topBlock(stackLines(finalText(n))))
 			}
-			recs = append(recs, map[string]any{"ev": "stack", "id": id, "d": map[string]any{"x": x, "names": names},
+			recs = append(recs, map[string]any{"ev": "stack", "id": id, "d": map[string]any{"x": x, "names": names, "raw": strings.Join(strings.Fields(str(ev["raw"])), " ")},
 				"before": stackLines(str(ev["before"])), "after": stackLines(str(ev["after"])), "targets": tg})
 		}
 	}
